@@ -25,6 +25,25 @@ def Node.close (n : Node) (sid : Sid) : Node × List Ev :=
     match n.left sid with
     | (n, evs2) => ({ n with sessions := AL.erase n.sessions sid }, evs1 ++ evs2)
 
+/-- session id of the throw-away authenticated client `process_leave_request` uses -/
+def fakeSid : Sid := 4000000000
+
+/-- `tcp_ops::handle_client` at end of stream: like `close`, and a connection that had announced
+itself as a cluster member (`set-primary` / `set-secoundary`) makes the node process `leave` /
+`replicate-leave` for that member before the session is released -/
+def Node.tcpClose (n : Node) (sid : Sid) : Node × List Ev :=
+  match n.exec sid b!"unwatch-all" with
+  | (n, _, evs1) =>
+    let (n, evsM) : Node × List Ev :=
+      match (n.session sid).member with
+      | some (name, role) =>
+        let cmd := (if role = .primary then b!"leave " else b!"replicate-leave ") ++ name
+        match (n.setSession fakeSid { auth := true }).exec fakeSid cmd with
+        | (n, _, evs) => ({ n with sessions := AL.erase n.sessions fakeSid }, evs)
+      | none => (n, [])
+    match n.left sid with
+    | (n, evs2) => ({ n with sessions := AL.erase n.sessions sid }, evs1 ++ evsM ++ evs2)
+
 def evForSid (sid : Sid) : Ev → Option Bytes
   | .push s l => if s = sid then some l else none
   | _ => none
